@@ -296,7 +296,7 @@ class RefServer:
             if pid == 0:
                 try:
                     os.close(r)
-                    entry, pr, opts = req
+                    rid, entry, pr, opts = req
                     solvers.options.clear()
                     call = Call(entry, pr)
                     out = call.run(opts) + ({"F_calls": call.F_calls},)
@@ -309,11 +309,20 @@ class RefServer:
             out = self._read(r)
             os.close(r)
             os.waitpid(pid, 0)
-            self._write(self.res_w, out)
+            self._write(self.res_w, (req[0], out))
 
     def reference(self, entry, pr, opts):
-        self._write(self.req_w, (entry, pr, opts))
-        out = self._read(self.res_r)
+        # requests carry a serial number: an answer left unread by an interrupted call (watchdog) is skipped, not
+        # mistaken for the answer to the next request
+        self.serial = getattr(self, "serial", 0) + 1
+        self._write(self.req_w, (self.serial, entry, pr, opts))
+        while True:
+            ans = self._read(self.res_r)
+            if ans is None:
+                raise RuntimeError("reference server failed: no answer")
+            rid, out = ans
+            if rid == self.serial:
+                break
         if out is None or out[0] == "harness":
             raise RuntimeError("reference server failed: %r" % (out,))
         return out
